@@ -268,3 +268,19 @@ func TestDriversSmoke(t *testing.T) {
 		}
 	}
 }
+
+// first_kex_packet_follows variants of the Peer against the unchanged library.
+func TestGuessModesSmoke(t *testing.T) {
+	for _, role := range []string{"peer-client", "peer-server"} {
+		for _, strict := range []bool{true, false} {
+			for _, g := range guessModes {
+				pr := runPeerX(role, "curve25519-sha256", quickSuites[1], strict, injection{pos: -1}, g, edit{})
+				types, _, _, _ := pr.x.snapshot()
+				t.Logf("%s strict=%v follows=%s: go %v/%v peer %v at %s stalled=%v kexes=%d sent=%d plaintext=%v", role, strict, g, pr.goErr, pr.goRunErr, pr.peerErr, pr.peerStep, pr.stalled, len(pr.peer.Kexes), len(pr.peer.Sent), typeNames(types[peerToGoDir(role)]))
+				if pr.goErr != nil || pr.goRunErr != nil || pr.peerErr != nil || pr.stalled || len(pr.peer.Kexes) != 3 || pr.peer.Kexes[0].Strict != strict {
+					t.Errorf("%s strict=%v follows=%s failed", role, strict, g)
+				}
+			}
+		}
+	}
+}
